@@ -9,6 +9,11 @@ Line protocol of component `atomics` (C04).
   atomics cls   <c0> <progs> <sched>   class of the gauge value after every step: t=<nan|+inf|-inf|fin|unk>.…
   atomics hist  <depth> <calls>        delivered log, run-length encoded:  <hex>x<n>,…   (`.` = nothing delivered)
   atomics conv  <arg>                  `into_f64` of one argument:         <hex>
+  atomics dconv <arg>                  `__into_f64` of one argument:       <hex>
+  atomics itrace <c0> <progs> <sched>  like `trace`, on the bit-level IEEE carrier (`ieeeCarrier`: every f64 operand,
+                                       rounding included); a NaN cell prints as `nan`:  t=<hex|nan>.… n=<log length>
+  atomics upd <input> <a|i|d> <arg>    `GaugeValue::{Absolute,Increment,Decrement}(arg).update_value(input)` on the
+                                       IEEE carrier (<input> = f64 bits, hex):             <hex|nan>
 
   <c0>     initial cell, hex
   <progs>  thread programs separated by `,` (`.` = no threads); a program = calls joined by `+` (`-` = empty)
@@ -101,8 +106,45 @@ def rle : List Nat → List (Nat × Nat)
     | (y, n) :: rest => if x = y then (y, n + 1) :: rest else (x, 1) :: (y, n) :: rest
     | [] => [(x, 1)]
 
+def opTokI (cs : List Char) : Option (Op Nat) :=
+  match cs with
+  | 'g' :: 'i' :: '=' :: r => ((argTok (String.ofList r)).bind intoF64Bits).map Op.gInc
+  | 'g' :: 'd' :: '=' :: r => ((argTok (String.ofList r)).bind intoF64Bits).map Op.gDec
+  | 'g' :: 's' :: '=' :: r => ((argTok (String.ofList r)).bind intoF64Bits).map Op.gSet
+  | 'i' :: r => (String.ofList r).toNat?.bind (fun n => if n < two64 then some (Op.inc n) else none)
+  | 'a' :: r => (String.ofList r).toNat?.bind (fun n => if n < two64 then some (Op.abs n) else none)
+  | _ => none
+
+def callTokI (s : String) : Option (Call Nat) :=
+  match s.toList with
+  | h :: r => do pure { h := (← handleTok h), op := (← opTokI r) }
+  | [] => none
+
+def progTokI (s : String) : Option (List (Call Nat)) :=
+  if s == "-" then some [] else (s.splitOn "+").mapM callTokI
+
+/-- a gauge cell on the IEEE carrier: NaNs by class only -/
+def cellTokI (b : Nat) : String := if f64IsNaN b then "nan" else hex16 b
+
 def handle (args : List String) : Option String :=
   match args with
+  | ["itrace", c0, progs, sched] => do
+    let c0 ← unhexNat c0
+    if two64 ≤ c0 then none
+    let progs ← listTok progTokI progs
+    let sched ← schedTok sched
+    let (s, tr) := sched.foldl (fun (acc : Sys Nat × List String) tid =>
+        let s' := step ieeeCarrier allRmw acc.1 tid
+        (s', cellTokI s'.cell :: acc.2)) (init c0 progs, [])
+    let t := if tr.isEmpty then "-" else ".".intercalate tr.reverse
+    pure s!"t={t} n={s.log.length}"
+  | ["upd", inp, k, a] => do
+    let inp ← unhexNat inp
+    if two64 ≤ inp then none
+    let v ← (argTok a).bind intoF64Bits
+    let gv : GaugeValue Nat ← match k with
+      | "a" => some (.absolute v) | "i" => some (.increment v) | "d" => some (.decrement v) | _ => none
+    pure (cellTokI (gv.updateValue ieeeCarrier inp))
   | [mode, c0, progs, sched] => do
     let c0 ← unhexNat c0
     if two64 ≤ c0 then none
@@ -136,6 +178,14 @@ def handle (args : List String) : Option String :=
         | .one h v => histRecord (if h then live else Handle.noop) log v
         | .many h v n => histRecordMany (if h then live else Handle.noop) log v n) []
     pure (showList (fun (p : Nat × Nat) => s!"{hex16 p.1}x{p.2}") (rle log))
+  | ["dconv", a] => do
+    let a ← argTok a
+    match dunderIntoF64Bits a with
+    | some b => pure (hex16 b)
+    | none =>
+      match a with
+      | .dur s n => if n < 1000000000 ∧ s < two64 then pure "inexact" else none
+      | _ => none
   | ["conv", a] => do
     let a ← argTok a
     match intoF64Bits a with
